@@ -174,15 +174,18 @@ def run(ctx, pid):
     if len(starts) != len(behaviours):
         raise vlib.Infra("trace has %d behaviours, expected %d" % (len(starts), len(behaviours)))
     conf_end = starts[len(behaviours) - len(wit)]      # the overlap witnesses are judged by the monitor only
-    cut = starts[(len(behaviours) - len(wit)) // 2]
+    nparts = 2 if quick else 4
+    njudged = len(behaviours) - len(wit)
+    cuts = [starts[njudged * k // nparts] for k in range(nparts)] + [conf_end]
     parts = []
     with open(trace) as f:
         lines = f.readlines()
-    for name, lo, hi in (("a", 0, cut), ("b", cut, conf_end)):
-        pth = ctx.tmp("trace_%s.ndjson" % name)
+    for k in range(nparts):
+        lo, hi = cuts[k], cuts[k + 1]
+        pth = ctx.tmp("trace_%d.ndjson" % k)
         with open(pth, "w") as f:
             f.writelines(lines[lo:hi])
-        parts.append((name, pth, lo, hi - lo))
+        parts.append((str(k), pth, lo, hi - lo))
     res = {}
 
     def tlc_trace(name, cfg, path):
@@ -255,6 +258,35 @@ def run(ctx, pid):
         else:
             unknown_known.append(kid)
 
+    # vacuity: which model actions / branches did the REAL executions exercise
+    acts = {}
+    cur = None
+    for r in rows:
+        if r["op"] == "New":
+            cur = r["cfg"]
+        k = None
+        if r["op"] == "Consume":
+            k = "consume:" + r["d"]
+        elif r["op"] == "Panicking":
+            k = "panicking:%s:%s" % (r["d"], r["strat"])
+        elif r["op"] == "Handle":
+            k = "handle:" + r["k"]
+        elif r["op"] == "Faults":
+            exhausted = cur["max"] > 0 and cur["win"] in ("short", "long") and r["flt"] > cur["max"]
+            k = "budget:" + ("exhausted" if exhausted else "within")
+        elif r["op"] in ("Restarted", "Tick", "Reinstate"):
+            k = r["op"].lower()
+        elif r["op"] == "Obs" and any(r["x"].values()):
+            k = "window:expired"
+        if k:
+            acts[k] = acts.get(k, 0) + 1
+    need = ["consume:none", "consume:Resume", "consume:Stop", "consume:Restart", "consume:Escalate", "panicking:Stop:one",
+            "panicking:Stop:all", "panicking:Restart:one", "panicking:Restart:all", "panicking:Escalate:one", "handle:Sig",
+            "budget:exhausted", "budget:within", "restarted", "tick", "reinstate", "window:expired"]
+    missing = [k for k in need if not acts.get(k)]
+    if missing:
+        raise vlib.Infra("vacuous run: the real executions never exercised %s" % missing)
+
     def nontrivial(b):
         return sum(1 for o in b["ops"] if o["op"] == "Fault") >= 2
     cov = {
@@ -273,7 +305,8 @@ def run(ctx, pid):
         "exhaustive": (not quick), "exhaustive_note": "thorough replays every history of length 2 of the core set; quick a seeded sample",
         "events_validated": nlines, "operations_executed": stats["ops"],
         "configurations": len({json.dumps(b["cfg"], sort_keys=True) for b in behaviours}),
-        "monitor_mismatches": len(mism), "known_witnesses": len(known), "not_quiescent_behaviours": len(unjudged),
+        "actions_exercised_on_real_code": acts,
+        "monitor_mismatches": len(mism), "known_witnesses": len(known), "not_quiescent_behaviours": len(unjudged), "implicit_ticks": stats.get("implicit_ticks", 0),
         "conformance_drift": drift, "conformance_drifted_behaviours": len(drifted),
     }
     assumptions = [
